@@ -9,6 +9,7 @@ import (
 	"sort"
 	"strings"
 	"sync"
+	"sync/atomic"
 	"time"
 
 	"verif/harness/internal/core"
@@ -105,8 +106,35 @@ func compress(evs []map[string]interface{}) {
 	}
 }
 
-// RunOne realises the scenario under root, runs goderive and collects observations.
+// timeoutRetries bounds how many timed-out runs are repeated per process (a genuine hang costs the long timeout once more)
+var timeoutRetries int32 = 6
+
+// RunOne realises the scenario under root, runs goderive and collects observations. A run that exceeds the
+// time limit is repeated once from a clean directory with a three times longer limit before it is called a
+// hang: on a heavily loaded machine a correct goderive can need more than 20 s, and a verdict must not
+// depend on the load.
 func RunOne(c *core.Ctx, bin string, sc *Scenario, root string, chk *Checker, o RunOpts) (*RunOut, error) {
+	out, err := runOneAttempt(c, bin, sc, root, chk, o)
+	if err != nil || !out.TimedOut || atomic.AddInt32(&timeoutRetries, -1) < 0 {
+		return out, err
+	}
+	os.RemoveAll(root)
+	o2 := o
+	if o2.Timeout == 0 {
+		o2.Timeout = 20 * time.Second
+	}
+	o2.Timeout *= 3
+	out2, err := runOneAttempt(c, bin, sc, root, chk, o2)
+	if err != nil {
+		return nil, err
+	}
+	if !out2.TimedOut {
+		c.Warn(fmt.Sprintf("a goderive run exceeded the time limit and finished when repeated with a longer one (machine load): %s", sc.ID))
+	}
+	return out2, nil
+}
+
+func runOneAttempt(c *core.Ctx, bin string, sc *Scenario, root string, chk *Checker, o RunOpts) (*RunOut, error) {
 	if err := os.MkdirAll(root, 0755); err != nil {
 		return nil, err
 	}
